@@ -213,7 +213,7 @@ struct Run : ContBase {
         std::string v; bool ok;
         if (api == 0) { v = gen_elem(false); Buf vb(v); ok = qgrow_add(g, vb.p, vb.n); if (scribble) vb.scribble(); }
         else if (api == 1) { v = gen_val(true, 40); Buf *b = Buf::cstr(v); ok = qgrow_addstr(g, b->c()); if (scribble) b->scribble(); delete b; }
-        else { std::string t = gen_val(true, 20); long n = s.range(-99, 99); Buf *b = Buf::cstr(t); ok = qgrow_addstrf(g, "%s=%ld;", b->c(), n); if (scribble) b->scribble(); delete b; v = t + "=" + std::to_string(n) + ";"; }
+        else { long n = s.range(-99, 99); std::string t = gen_fmt_text(20, 2 + std::to_string(n).size()); Buf *b = Buf::cstr(t); ok = qgrow_addstrf(g, "%s=%ld;", b->c(), n); if (scribble) b->scribble(); delete b; v = t + "=" + std::to_string(n) + ";"; }
         c.op("%s(%s) n=%zu", api == 0 ? "add" : api == 1 ? "addstr" : "addstrf", hexs(v, 10).c_str(), m.size());
         seei(ok);
         if (!ok) c.fail(FUNC, "list:grow-add", "qgrow add returned false (errno=%d)", errno);
